@@ -500,7 +500,7 @@ def rules(ctx: Ctx) -> None:
                     x = u(k.args[0]) if k.args else "?"
                     ok = _bound_to_column_filtered(prog, fold, x)
                     ctx.ob("R03.3", "post-fold:remove_edge-column-only", ok, where, f"`{u(k)}` after the fold may only remove edges leaving a Column")
-    ctx.floor("graph removal sites in the fold function", n_rem, 4)
+    ctx.floor("graph removal sites in the fold function", n_rem, 3)
 
     # ---- R03.4 rename iteration order -------------------------------------------------
     for nid in effects["rename"]:
